@@ -578,5 +578,50 @@ def r06_15(ctx):
         raise AnalysisError(f"only {n} set / set default searches found in Symbol.str_value")
 
 
+def r06_16(ctx):
+    """R06.16 text that comes from somewhere else is exposed only after the form check of the option's type: in the int/hex and float
+    branches of Symbol.str_value every assignment of the result text from another symbol's value (`default OTHER`) or from a `set`
+    literal is reached only with `_is_base_n(<that text>, base)` / `is_float(<that text>)` established. (The user value is
+    checked by set_value, R06.1.) **Known findings**: the two `default` arms expose `sym.str_value` unchecked - `config I int
+    default S` with the string option S = \"abc\" evaluates to `abc`, the header gets `#define CONFIG_I abc` and the JSON emitter
+    raises ValueError."""
+    from .common import FIVE_TYPES, facts_imply, type_atom_truth
+    repo = ctx.repo
+    f = repo.func(f"{CORE}:Symbol.str_value")
+    ctx.analysed(f.qual)
+    res = Resolver(f.node)
+    fl = Flow(f.node, resolver=res).run()
+    result = "val"
+    n = 0
+    seen = {}
+    for st in ast.walk(f.node):
+        if not (isinstance(st, ast.Assign) and len(st.targets) == 1 and ast.unparse(st.targets[0]) == result):
+            continue
+        srcs = [x for x in ast.walk(st.value) if isinstance(x, ast.Attribute) and x.attr in ("str_value", "name") and isinstance(x.ctx, ast.Load)
+                and not (isinstance(x.value, ast.Name) and x.value.id == "self")]
+        if not srcs:
+            continue
+        gs = fl.guards_at(st) or set()
+        admitted = [ty for ty in FIVE_TYPES if not facts_imply(gs, "False_", fixed=lambda leaf, ty=ty: (type_atom_truth(repo, CORE, leaf, ty, attr="orig_type") if leaf != "False_" else False))]
+        num = [ty for ty in admitted if ty in ("INT", "HEX", "FLOAT")]
+        if not num or "STRING" in admitted:
+            continue
+        n += 1
+        src = ast.unparse(srcs[0])
+        kind = "FLOAT" if num == ["FLOAT"] else "INT/HEX"
+        loops = [lp for lp in ast.walk(f.node) if isinstance(lp, ast.For) and any(x is st for x in ast.walk(lp))]
+        its = " ".join(ast.unparse(lp.iter) for lp in loops)
+        role = "default" if ".defaults" in its else "set default" if "weak_rev_values" in its else "set" if "rev_values" in its else "other"
+        k = (kind, role)
+        seen[k] = seen.get(k, 0) + 1
+        construct = f"Symbol.str_value/{kind} {role} arm exposes foreign text only after its form check"
+        checked = any((("_is_base_n(" in g or "is_float(" in g) and (src in g or res.text(srcs[0]) in g) and p) for g, p in gs)
+        (ctx.ok(construct, f.loc(st), source=src) if checked else
+         ctx.bad(construct, f"`{ast.unparse(st)[:60]}` takes the text of `{src}` as the option's value without `_is_base_n` / `is_float` having accepted it: a "
+                 "non-number is exposed for a number option, the generators write it verbatim or raise", f.loc(st)))
+    if n < 6:
+        raise AnalysisError(f"only {n} foreign text sources found in the numeric branches of Symbol.str_value")
+
+
 def rules():
-    return [("R06.15", r06_15, 4), ("R06.14", r06_14, 2), ("R06.13", r06_13, 3), ("R06.12", r06_12, 1), ("R06.11", r06_11, 3), ("R06.10", r06_10, 12), ("R06.6", r06_6, 14), ("R06.7", r06_7, 3), ("R06.1", r06_1, 7), ("R06.2", r06_2, 6), ("R06.3", r06_3, 2), ("R06.4", r06_4, 20), ("R06.5", r06_5, 3), ("R06.8", r06_8, 12), ("R06.9", r06_9, 1)]
+    return [("R06.16", r06_16, 6), ("R06.15", r06_15, 4), ("R06.14", r06_14, 2), ("R06.13", r06_13, 3), ("R06.12", r06_12, 1), ("R06.11", r06_11, 3), ("R06.10", r06_10, 12), ("R06.6", r06_6, 14), ("R06.7", r06_7, 3), ("R06.1", r06_1, 7), ("R06.2", r06_2, 6), ("R06.3", r06_3, 2), ("R06.4", r06_4, 20), ("R06.5", r06_5, 3), ("R06.8", r06_8, 12), ("R06.9", r06_9, 1)]
